@@ -119,6 +119,22 @@ def run(ctx):
         if okr:
             a0 = env.resolve(ret.args[0])
             got["_call"] = (isinstance(a0, TupleItem) and a0.index == 0, U(ret.args[1]), U(ret.args[2]), any(k.arg is None for k in ret.keywords))
+    n_ret = bad_ret = 0
+    for path in function_paths(pj.node):
+        if end_kind(path) != "return":
+            continue
+        n_ret += 1
+        env2 = Env()
+        for step in path:
+            env2.step(step)
+        ret = path[-1][2].value
+        if not (isinstance(ret, ast.Call) and U(ret.func) == "self._reduce_dimension" and len(ret.args) >= 3
+                and U(env2.expand(ret.args[1])).startswith(("self.frequencies.sum(", "self._frequencies.sum("))
+                and U(env2.expand(ret.args[2])).startswith(("self.errors2.sum(", "self._errors2.sum("))):
+            bad_ret += 1
+    ctx.check(n_ret >= 1 and bad_ret == 0, "C09.a", "projection:every-path-sums", f"all {n_ret} returning path(s) hand the summed contents and errors to _reduce_dimension",
+              f"{bad_ret} of {n_ret} returning paths of projection() do not return _reduce_dimension(axes, <contents summed>, <errors2 summed>) "
+              "(a shortcut path returns something that is not the marginal)", pj.where)
     f, e = got.get("frequencies"), got.get("errors2")
     ctx.check(bool(f and f[0] in ("self.frequencies", "self._frequencies") and f[1]), "C09.a", "projection:frequencies",
               "frequencies = self.frequencies.sum(axis=<dropped axes>)", f"frequencies reduced as {f}", pj.where)
